@@ -2,7 +2,7 @@ import vlib
 
 
 def classify(line):
-    tags = line.get("tags", [])
+    tags = line.get("tags") or []
     kind = [t for t in tags if t.startswith("kind:")]
     kind = kind[0][5:] if kind else ""
     if kind in ("staged", "ep-staged") and "has:absent-policy" in tags:
